@@ -1,5 +1,6 @@
 import BoltonsVerif.Common
 import BoltonsVerif.C18.Model
+import BoltonsVerif.C18.Calls
 import BoltonsVerif.Generated.C18_Consts
 /-
 C18 line protocol.  One line = one whole history.
@@ -14,7 +15,13 @@ C18 line protocol.  One line = one whole history.
 ops:  w<hex> write | W<hex>,<hex>… writelines (W alone = empty batch) | r<n> read(n) | ra read() | rl readline() | rL<n> readline(n) | rs readlines()
       sk<n> seek(n) | sc<n> seek(n, SEEK_CUR) | se<n> seek(∓n, SEEK_END) | t tell() | g getvalue()
       l len(f) | n next(f) | it list(f) | dr [x for x in f] | ro f.rollover()
+      round 5 — REJECTED calls (`C18.Call`, `none`): x  a call that raises before doing anything (record `N@<tell>`, state
+      unchanged) | xw<hex> write of a text whose bytes the model's own UTF-8 decoder must judge (`C18.rawWrite`: a lone
+      surrogate, sent as its 'surrogatepass' bytes, is refused -> rejected) | xW<hex>,<hex>… writelines that stops at the
+      first piece that is no payload / not UTF-8 (`C18.rawWritelines`: the pieces before it are written)
 mops: r<n> read(n) | ra read() | s seek(0)
+  MO b|t <n> <hex>*n <pos>*n <mop> ...   round 5: MultiFileReader over members handed over at their own positions
+                                   (`C18.MFR.initAt`; positions in bytes / code points)
 Payloads are hex (bytes, or the UTF-8 of a text), `-` = empty.
 Text is rendered through the model's own bytes (`realBytes (encode cs)`, = `String.toUTF8` by
 `C18.utf8_stored_bytes`), a text payload is decoded by the model's real-bytes decoder (`decodeR`) and accepted only
@@ -34,10 +41,7 @@ def hexOfChars (cs : List Char) : String := hexOfBytes (realBytes (encode cs))
 def bytesOfHex? (s : String) : Option (List Byte) := if s = "-" then some [] else hexToBytes? s
 def charsOfHex? (s : String) : Option (List Char) :=
   match bytesOfHex? s with
-  | some bs =>
-    match decodeR bs with
-    | (cs, [], false) => if realBytes (encode cs) = bs then some cs else none
-    | _ => none
+  | some bs => textOfBytes? bs
   | none => none
 
 def showOut {α : Type} (h : List α → String) : Out α → String
@@ -77,22 +81,36 @@ def parseOps {α : Type} (payload : String → Option (List α)) (toks : List St
     | some l, some op => some (op :: l)
     | _, _ => none) (some [])
 
-def runBytes (s : SBytes) : List (Op Byte) → List String → List String
-  | [], acc => acc.reverse
-  | op :: ops, acc =>
-    let r := s.step op
-    runBytes r.2 ops (s!"{showOut hexOfBytes r.1}@{r.2.buf.pos}" :: acc)
+/-- a token that may stand for a rejected call (`x…`), else an ordinary op -/
+def parseCall {α : Type} (payload : String → Option (List α)) (tok : String) : Option (Call α) :=
+  if tok = "x" then some none
+  else if tok.startsWith "xw" then
+    some ((payload (tok.drop 2).toString).map .write)
+  else if tok.startsWith "xW" then
+    some (rawWritelines .writelines ((splitOnChar (tok.drop 2).toString ',').map payload))
+  else (parseOp payload tok).map some
 
-def runStr (s : SStr) : List (Op Char) → List String → List String
+def parseCalls {α : Type} (payload : String → Option (List α)) (toks : List String) : Option (List (Call α)) :=
+  toks.foldr (fun t acc => match acc, parseCall payload t with
+    | some l, some c => some (c :: l)
+    | _, _ => none) (some [])
+
+def runBytes (s : SBytes) : List (Call Byte) → List String → List String
   | [], acc => acc.reverse
-  | op :: ops, acc =>
-    let r := s.step op
+  | c :: cs, acc =>
+    let r := stepCall SBytes.step s c
+    runBytes r.2 cs (s!"{showOut hexOfBytes r.1}@{r.2.buf.pos}" :: acc)
+
+def runStr (s : SStr) : List (Call Char) → List String → List String
+  | [], acc => acc.reverse
+  | c :: cs, acc =>
+    let r := stepCall SStr.step s c
     if r.2.rd.bad then ("XUnicodeDecodeError" :: acc).reverse
     else
-      let shown := match op, r.1 with
-        | .readlines, .lines xs => "L" ++ ",".intercalate ((splitB (realBytes (encode xs.flatten))).map hexOfBytes)
+      let shown := match c, r.1 with
+        | some .readlines, .lines xs => "L" ++ ",".intercalate ((splitB (realBytes (encode xs.flatten))).map hexOfBytes)
         | _, o => showOut hexOfChars o
-      runStr r.2 ops (s!"{shown}@{r.2.tell}" :: acc)
+      runStr r.2 cs (s!"{shown}@{r.2.tell}" :: acc)
 
 /-- the plain reference file by itself (the right-hand side of the refinement theorems) -/
 def runSpec {α : Type} [Inhabited α] (sem : LineSem α) (h : List α → String) (f : File α) :
@@ -114,28 +132,35 @@ def runMFR {α : Type} (h : List α → String) (m : MFR α) : List MOp → List
     let r := m.step op
     runMFR h r.2 ops ((match r.1 with | some d => "D" ++ h d | none => "N") :: acc)
 
+/-- `offs = true`: after the `n` contents come `n` positions (the members are handed over there) -/
 def handleM {α : Type} (payload : String → Option (List α)) (h : List α → String)
-    (n : Nat) (rest : List String) : String :=
+    (n : Nat) (rest : List String) (offs : Bool := false) : String :=
   let files := rest.take n
-  let toks := rest.drop n
-  if files.length ≠ n then "bad-op" else
+  let poss := if offs then (rest.drop n).take n else []
+  let toks := rest.drop (if offs then 2 * n else n)
+  if files.length ≠ n || (offs && poss.length ≠ n) then "bad-op" else
   match files.foldr (fun t acc => match acc, payload t with
       | some l, some d => some (d :: l)
+      | _, _ => none) (some []),
+    poss.foldr (fun t acc => match acc, t.toNat? with
+      | some l, some p => some (p :: l)
       | _, _ => none) (some []),
     toks.foldr (fun t acc => match acc, parseMOp t with
       | some l, some op => some (op :: l)
       | _, _ => none) (some []) with
-  | some contents, some ops => ";".intercalate (runMFR h (MFR.init contents) ops [])
-  | _, _ => "bad-op"
+  | some contents, some ps, some ops =>
+    let m : MFR α := if offs then MFR.initAt ((contents.zip ps).map (fun dp => ⟨dp.1, dp.2⟩)) else MFR.init contents
+    ";".intercalate (runMFR h m ops [])
+  | _, _, _ => "bad-op"
 
 def handle (line : String) : String :=
   match words line with
   | "B" :: ms :: toks =>
-    match ms.toNat?, parseOps bytesOfHex? toks with
+    match ms.toNat?, parseCalls bytesOfHex? toks with
     | some ms, some ops => ";".intercalate (runBytes (SBytes.init ms) ops [])
     | _, _ => "bad-op"
   | "S" :: ms :: ch :: toks =>
-    match ms.toNat?, (if ch = "R" then some C18.Generated.READ_CHUNK_SIZE else ch.toNat?), parseOps charsOfHex? toks with
+    match ms.toNat?, (if ch = "R" then some C18.Generated.READ_CHUNK_SIZE else ch.toNat?), parseCalls charsOfHex? toks with
     | some ms, some ch, some ops => ";".intercalate (runStr (SStr.init ms ch) ops [])
     | _, _, _ => "bad-op"
   | "F" :: kind :: toks =>
@@ -153,6 +178,13 @@ def handle (line : String) : String :=
     | some n =>
       if kind = "b" then handleM bytesOfHex? hexOfBytes n rest
       else if kind = "t" then handleM charsOfHex? hexOfChars n rest
+      else "bad-op"
+    | none => "bad-op"
+  | "MO" :: kind :: n :: rest =>
+    match n.toNat? with
+    | some n =>
+      if kind = "b" then handleM bytesOfHex? hexOfBytes n rest true
+      else if kind = "t" then handleM charsOfHex? hexOfChars n rest true
       else "bad-op"
     | none => "bad-op"
   | _ => "bad-op"
